@@ -17,7 +17,7 @@ use crate::pool::StrCfg;
 use crate::ptype::{PReg, PType};
 use crate::rng::{hash_of, Fnv, Rng};
 use crate::{reggen, regsim, tablesim};
-use scale::{Decode, Encode, IoReader};
+use scale::{Decode, DecodeLimit, Encode, IoReader};
 use scale_info::PortableRegistry;
 use serde::{Deserialize, Serialize};
 use std::collections::BTreeSet;
@@ -182,11 +182,36 @@ fn gen_direct(rng: &mut Rng, strs: &StrCfg, well_formed: bool) -> PReg {
         // (16 KiB / size_of::<PortableType>()), and than 1024, 4096
         6 => {
             probe("frame_source.many_types");
-            *rng.pick(&[140u32, 1023, 1024, 1025, 1500, 4097, 6000])
+            *rng.pick(&[140u32, 1023, 1024, 1025, 1500, 4097, 6000, 16383, 16384, 16385, 20000])
         }
         _ => rng.range(1, 9) as u32,
     };
     let mut types = Vec::new();
+    if well_formed && rng.permille(15) {
+        // one long dependency chain: entry i refers to entry i+1 through a
+        // sequence / array / compact / tuple / one-field composite
+        probe("frame_source.chain_registry");
+        let n = *rng.pick(&[70u32, 300, 600, 1100, 1600, 2500]);
+        for i in 0..n {
+            let next = if i + 1 < n { i + 1 } else { i };
+            let def = match rng.below(5) {
+                0 => crate::ptype::PDef::Sequence(next),
+                1 => crate::ptype::PDef::Array(i, next),
+                2 => crate::ptype::PDef::Compact(next),
+                3 => crate::ptype::PDef::Tuple(vec![next]),
+                _ => crate::ptype::PDef::Composite(vec![crate::ptype::PField { name: None, ty: next, type_name: None, docs: vec![] }]),
+            };
+            types.push((i, PType { path: vec![], params: vec![], def, docs: vec![] }));
+        }
+        if rng.permille(500) {
+            types.reverse();
+            for (i, t) in types.iter_mut().enumerate() {
+                t.0 = i as u32;
+                t.1 = t.1.map_ids(&mut |x| n - 1 - x);
+            }
+        }
+        return PReg { types };
+    }
     if n > 1000 {
         // tiny entries, or the frame would be megabytes
         for i in 0..n {
@@ -234,6 +259,14 @@ fn gen_direct(rng: &mut Rng, strs: &StrCfg, well_formed: bool) -> PReg {
         if n < 20 && rng.permille(8) {
             probe("frame_source.bulk_collection");
             types.push((i, tablesim::gen_bulk_ptype(rng, n.saturating_sub(1))));
+            continue;
+        }
+        if !types.is_empty() && rng.permille(60) {
+            // the same description at two ids (distinct Rust types can have
+            // identical descriptions)
+            probe("frame_source.duplicate_description");
+            let (_, t) = rng.pick(&types).clone();
+            types.push((if well_formed { i } else { tablesim::gen_id(rng, n + 2, 300) }, t));
             continue;
         }
         if well_formed {
@@ -1046,6 +1079,60 @@ fn execute_inner(scn: &WireScenario, mask: Mask, res: &mut WireResult) -> Check 
                 format!("frame {}: encoded_size() = {}, encoding has {}", k, reg.encoded_size(), a.len())
             })?;
         }
+        if mask.has("C07") {
+            // the same object encoded again after an in-place edit that keeps
+            // the number of entries: equal registries must give equal bytes,
+            // whatever either object was used for before
+            let mut obj = scn.frames[k].to_lib();
+            let first = obj.encode();
+            if first != a {
+                fail(mask, "C07", "encoding_deterministic", || format!("frame {}: equal registries, different bytes", k))?;
+            }
+            if !obj.types.is_empty() {
+                let j = (a.len() + k) % obj.types.len();
+                obj.types[j].ty.docs.push("edited".to_string());
+                obj.types[j].id = obj.types[j].id.wrapping_add(1);
+                let second = obj.encode();
+                let fresh = PReg::from_lib(&obj).to_lib().encode();
+                if second != fresh {
+                    fail(mask, "C07", "encoding_after_in_place_edit", || {
+                        format!(
+                            "frame {}: an object that was encoded, edited in place (entry {}) and encoded again gives other bytes than an equal fresh registry",
+                            k, j
+                        )
+                    })?;
+                }
+                probe("checks.encode_edit_encode");
+            }
+            // the depth-limited decoding API of the codec on the same impl
+            // (real nesting of a registry is about ten levels)
+            let mut input = &a[..];
+            match core::catch(|| PortableRegistry::decode_with_depth_limit(48, &mut input)) {
+                Ok(Ok(back)) if back == *reg && input.is_empty() => {}
+                other => {
+                    fail(mask, "C07", "decode_with_depth_limit", || {
+                        format!(
+                            "frame {}: decode_with_depth_limit(48) ended {:?} with {} bytes left",
+                            k,
+                            other.map(|r| r.map(|_| "ok but different").map_err(|e| e.to_string())),
+                            input.len()
+                        )
+                    })?;
+                }
+            }
+            match core::catch(|| PortableRegistry::decode_all_with_depth_limit(48, &mut &a[..])) {
+                Ok(Ok(back)) if back == *reg => {}
+                other => {
+                    fail(mask, "C07", "decode_all_with_depth_limit", || {
+                        format!(
+                            "frame {}: decode_all_with_depth_limit(48) ended {:?}",
+                            k,
+                            other.map(|r| r.map(|_| "ok but different").map_err(|e| e.to_string()))
+                        )
+                    })?;
+                }
+            }
+        }
         probe_max("max.frame_bytes", a.len() as u64);
         probe(match a.len() {
             0..=63 => "compact_class.frame_len.1byte",
@@ -1166,6 +1253,14 @@ fn execute_inner(scn: &WireScenario, mask: Mask, res: &mut WireResult) -> Check 
             let Some(before) = scn.frames.get(k) else { break };
             if !before.well_formed() {
                 continue;
+            }
+            // "by decoding its own output": through a slice and through an
+            // input that does not know its length
+            for reader in [&ReaderSpec::Slice, &ReaderSpec::NoLen] {
+                if let (Decoded::Ok(dec, _), _) = decode_with(&encoded[k], 0, reader) {
+                    let p = PReg::from_lib(&dec);
+                    crate::oracle::check_well_formed(mask, "decode_own_output", &dec, &p)?;
+                }
             }
             let Ok(Ok(mut reg)) = core::catch(|| PortableRegistry::decode(&mut &encoded[k][..])) else { continue };
             let len = before.len();
